@@ -21,6 +21,7 @@
 #include "interrogateDatabase.h"
 #include "interrogateType.h"
 #include "interrogateFunction.h"
+#include "cppArrayType.h"
 #include "cppFunctionType.h"
 
 using std::ostream;
@@ -262,6 +263,11 @@ void InterfaceMakerPythonSimple::write_function_instance(ostream &out, Interface
     indent(out, 2);
     CPPType *orig_type = remap->_parameters[pn]._remap->get_orig_type();
     CPPType *type = remap->_parameters[pn]._remap->get_new_type();
+    if (type->as_array_type() != nullptr) {
+      // A parameter of array type is really a pointer to the element type,
+      // and it is not legal to cast to an array type.
+      type = TypeManager::wrap_pointer(type->as_array_type()->_element_type);
+    }
     string param_name = remap->get_parameter_name(pn);
 
     // This is the string to convert our local variable to the appropriate C++
